@@ -421,6 +421,11 @@ impl<'a> Gen<'a> {
                     Stmt::Read(ts)
                 }
                 13 if self.k.data => Stmt::Restore,
+                // a bare `DIM X` / `DIM X$`: a no-op that must not count as an assignment
+                14 if self.k.arrays && self.rng.chance(1, 8) => {
+                    let n = if self.k.strings && self.rng.chance(1, 3) { self.str_var() } else { self.num_var() };
+                    Stmt::Dim(n, vec![])
+                }
                 14 if self.k.arrays => {
                     let (name, dims) = if self.k.strings && self.rng.chance(1, 3) {
                         let n = self.rng.pick(STR_ARRAYS).to_string();
